@@ -715,7 +715,7 @@ PROPS["C04"] = {
     "trusted": [
         "the harness renderer (enc.rs, asmgen.rs) realises the relation `t is a layout of P`",
         "text-level theorem accept_iff_wf_render is proved for the layout space Layout.ok of Spec/Render.lean; that the "
-        "harness renderer stays inside it is re-checked by the driver on accepted texts only (rejected texts: this correspondence)",
+        "harness renderer stays inside it is re-checked by the driver on every text of a renderable program, accepted or rejected",
     ],
     "assumptions": [
         "labels are valid label names whatever the stack flag (I13); a label marks a statement of at least one word",
